@@ -26,7 +26,7 @@ def run(ck):
     build_harness()
     rng = Rng(ck.seed, "C16")
     S = protocol.Script()
-    S.cmd("pp", "pp", (1 << 12) + 8, 3)
+    S.cmd("pp", "pp", (1 << 12) + 8 if quick else (1 << 13) + 8, 3)
     kinds_sets = [["arith"], ["range"], ["logic"], ["range", "logic"], ["trunc"], ["decomp", "pub"], ["pub"], ["sel", "bool"],
                   ["arith", "range", "logic", "trunc", "decomp", "pub", "sel", "bool"]]
     cases = []
